@@ -337,9 +337,9 @@ pub fn run(ctx: &Ctx) -> Finish {
     let lays = layouts();
     let sweep = ctx.tier.pick(210, 840);
     let nm: Vec<(usize, usize)> = if t_tier {
-        vec![(1, 1), (2, 1), (3, 1), (2, 2), (3, 2), (4, 3), (5, 4)]
+        vec![(1, 1), (2, 1), (3, 1), (2, 2), (3, 2), (4, 3), (5, 4), (2, 0), (1, 0)]
     } else {
-        vec![(1, 1), (2, 1), (3, 2), (5, 4)]
+        vec![(1, 1), (2, 1), (3, 2), (5, 4), (2, 0)]
     };
     ctx.note("type_codes", json!(codes.len()));
     ctx.note("sweep_per_code_and_size", json!(sweep));
